@@ -84,7 +84,7 @@ func execC03(c run.Case) (res run.Result) {
 // the shape of the symptom), not by property. Most specific first; anything without a
 // listed trigger is "other" and is never a known finding.
 func classifyC03(m *d2ast.Map, in, t1, t2 string) string {
-	boardKw, importExt, edgeCharKey, array := false, false, false, false
+	boardKw, importExt, edgeCharKey, array, wsLineInBlockComment := false, false, false, false, false
 	d2ast.Walk(m, func(n d2ast.Node) bool {
 		switch t := n.(type) {
 		case *d2ast.Key:
@@ -126,6 +126,13 @@ func classifyC03(m *d2ast.Map, in, t1, t2 string) string {
 					edgeCharKey = true
 				}
 			}
+		case *d2ast.BlockComment:
+			lines := strings.Split(t.Value, "\n")
+			for _, l := range lines {
+				if !t.Range.OneLine() && l != "" && strings.TrimSpace(l) == "" {
+					wsLineInBlockComment = true
+				}
+			}
 		case *d2ast.Array:
 			array = true
 		case *d2ast.Import:
@@ -157,6 +164,8 @@ func classifyC03(m *d2ast.Map, in, t1, t2 string) string {
 		return "board-keyword-in-unusual-form"
 	case importExt && !layoutOnly:
 		return "import-path-with-d2-extension"
+	case wsLineInBlockComment && layoutOnly:
+		return "block-comment-with-whitespace-only-line"
 	case layoutOnly && oneLine:
 		return "one-line-file-map-relayout"
 	case layoutOnly && array:
